@@ -420,8 +420,10 @@ def ref_value(vs):
 
 
 def mk_rcells(c):
-    return R.RCells(c["name"], c["params"], c["expr"], c.get("cached", True),
-                    c.get("allow_none"), c.get("form", "lambda"), c.get("doc"), c.get("tick", True))
+    rc = R.RCells(c["name"], c["params"], c["expr"], c.get("cached", True),
+                  c.get("allow_none"), c.get("form", "lambda"), c.get("doc"), c.get("tick", True))
+    rc.terms = c.get("terms")
+    return rc
 
 
 def _drop_inputs(rm, pred):
